@@ -16,12 +16,18 @@ io/AuditFacts.vos io/AuditFacts.vok io/AuditFacts.required_vos: io/AuditFacts.v 
 io/Construct.vo io/Construct.glob io/Construct.v.beautified io/Construct.required_vo: io/Construct.v io/Walk.vo
 io/Construct.vio: io/Construct.v io/Walk.vio
 io/Construct.vos io/Construct.vok io/Construct.required_vos: io/Construct.v io/Walk.vos
+io/Families.vo io/Families.glob io/Families.v.beautified io/Families.required_vo: io/Families.v base/PyStrFacts.vo io/Unsafe.vo io/UnsafeFacts.vo io/NodeInd.vo
+io/Families.vio: io/Families.v base/PyStrFacts.vio io/Unsafe.vio io/UnsafeFacts.vio io/NodeInd.vio
+io/Families.vos io/Families.vok io/Families.required_vos: io/Families.v base/PyStrFacts.vos io/Unsafe.vos io/UnsafeFacts.vos io/NodeInd.vos
 io/GetTree.vo io/GetTree.glob io/GetTree.v.beautified io/GetTree.required_vo: io/GetTree.v io/Node.vo
 io/GetTree.vio: io/GetTree.v io/Node.vio
 io/GetTree.vos io/GetTree.vok io/GetTree.required_vos: io/GetTree.v io/Node.vos
 io/Node.vo io/Node.glob io/Node.v.beautified io/Node.required_vo: io/Node.v base/Json.vo io/Registry.vo
 io/Node.vio: io/Node.v base/Json.vio io/Registry.vio
 io/Node.vos io/Node.vok io/Node.required_vos: io/Node.v base/Json.vos io/Registry.vos
+io/NodeInd.vo io/NodeInd.glob io/NodeInd.v.beautified io/NodeInd.required_vo: io/NodeInd.v io/Node.vo
+io/NodeInd.vio: io/NodeInd.v io/Node.vio
+io/NodeInd.vos io/NodeInd.vok io/NodeInd.required_vos: io/NodeInd.v io/Node.vos
 io/Registry.vo io/Registry.glob io/Registry.v.beautified io/Registry.required_vo: io/Registry.v base/Json.vo
 io/Registry.vio: io/Registry.v base/Json.vio
 io/Registry.vos io/Registry.vok io/Registry.required_vos: io/Registry.v base/Json.vos
